@@ -33,8 +33,9 @@ def covers(handled, exc):
 
 
 class Failure:
-    def __init__(self, q, node, exc, kind, cond):
+    def __init__(self, q, node, exc, kind, cond, path=()):
         self.q, self.node, self.exc, self.kind, self.cond = q, node, exc, kind, cond
+        self.path = list(path)     # [(test, polarity)]: tests known to hold / not to hold where the failure sits
 
     @property
     def line(self):
@@ -74,8 +75,16 @@ class Escape:
             return [st]
 
         guards = []
+        pathc = []            # path condition: (test, polarity) of the enclosing / preceding early-exit `if`s
 
         def walk(stmts, handled, nonzero):
+            mark = len(pathc)
+            try:
+                return _walk(stmts, handled, nonzero)
+            finally:
+                del pathc[mark:]
+
+        def _walk(stmts, handled, nonzero):
             for st in stmts:
                 if isinstance(st, ast.Try):
                     hs = set(handled)
@@ -90,7 +99,7 @@ class Escape:
                         guards.pop()
                     continue
                 if isinstance(st, ast.Assert):
-                    sites.append((handled, "fail", Failure(q, st, "AssertionError", "assert", st.test)))
+                    sites.append((handled, "fail", Failure(q, st, "AssertionError", "assert", st.test, list(pathc))))
                     nonzero = nonzero | _positive_facts(st.test)
                 if isinstance(st, ast.Expr) and isinstance(st.value, ast.Call):
                     # `_check_at_least(npts, 1)`: the asserts of a resolved validating helper hold for the arguments
@@ -135,7 +144,7 @@ class Escape:
                     if st.exc is not None:
                         e = st.exc.func if isinstance(st.exc, ast.Call) else st.exc
                         exc = U(e)
-                    sites.append((handled, "fail", Failure(q, st, exc, "raise", guards[-1] if guards else None)))
+                    sites.append((handled, "fail", Failure(q, st, exc, "raise", guards[-1] if guards else None, list(pathc))))
                 for root in exprs_of(st):
                     for sub in ast.walk(root):
                         for t in inf.targets(sub):
@@ -158,9 +167,16 @@ class Escape:
                 if isinstance(st, ast.If):
                     nz_true, nz_false = _nonzero_facts(st.test)
                     guards.append(st.test)
+                    pathc.append((st.test, True))
                     out_t = walk(st.body, handled, nonzero | nz_true)
                     guards.pop()
+                    pathc[-1] = (st.test, False)
                     out_f = walk(st.orelse, handled, nonzero | nz_false)
+                    pathc.pop()
+                    if out_t is None and out_f is not None:
+                        pathc.append((st.test, False))       # `if T: return ...` -- not T from here on
+                    elif out_f is None and out_t is not None:
+                        pathc.append((st.test, True))
                     # facts after the `if`: those holding at the end of every branch that falls through (an early
                     # exit `if d == 0: return` leaves d non-zero; `if not abs(d) > c: d = c` leaves d non-zero)
                     live = [o for o in (out_t, out_f) if o is not None]
